@@ -1245,3 +1245,97 @@ func scPipelineFaults(r *rng) *cluster {
 }
 
 func init() { scenarioFamilies[14] = scPipelineFaults }
+
+// ---------------------------------------------------------------- family 15: a lagging voter exactly one term ahead (C12)
+// Three voters with real timers.  C is cut off and falls behind; the leader A's RequestVote for the next term T+1 reaches
+// only C (C grants: A's log is ahead); A crashes.  What remains is a majority that can communicate - B in term T with the
+// complete log, C in term T+1 with a shorter one.  Within a bounded number of election timeouts B must be elected (its
+// pre-vote for T+1 is granted by C, its election for T+1 is refused - C voted for A -, the next round succeeds) and accept writes.
+func scOneTermAhead(r *rng) *cluster {
+	o := timedOpts(3, 0)
+	o.trailing = 100
+	o.maxAppend = 1 + r.intn(4)
+	c := basicCluster(o)
+	note := func(f string, a ...interface{}) { c.h.add(hev{kind: "note", s: "ahead: " + fmt.Sprintf(f, a...)}) }
+	if !waitFor(3*time.Second, func() bool { return c.leader() != nil }) {
+		note("no first leader")
+		return c
+	}
+	A := c.leader()
+	pay := uint64(8600)
+	for i := 0; i < 2; i++ {
+		pay++
+		c.call(A.id, "apply", pay, 0).wait(300 * time.Millisecond)
+	}
+	var others []uint64
+	for _, id := range c.ids {
+		if id != A.id {
+			others = append(others, id)
+		}
+	}
+	B, C := others[0], others[1]
+	if r.chance(1, 2) {
+		B, C = C, B
+	}
+	c.partition([]uint64{A.id, B}, []uint64{C})
+	for i := 0; i < 2+r.intn(3); i++ {
+		pay++
+		c.call(A.id, "apply", pay, 0).wait(300 * time.Millisecond)
+	}
+	if c.leader() != A || A.r.State() != raft.Leader {
+		note("leadership changed during the set-up")
+		c.heal()
+		c.settle(300 * time.Millisecond)
+		return c
+	}
+	T := A.r.CurrentTerm()
+	// A's vote request for T+1 reaches C, and only C
+	tc := c.nodes[C].curTrans()
+	if tc == nil {
+		return c
+	}
+	ch := make(chan raft.RPCResponse, 1)
+	req := &raft.RequestVoteRequest{RPCHeader: header(A.id, A.id), Term: T + 1, Candidate: []byte(addrStr(A.id)), LastLogIndex: A.r.LastIndex(), LastLogTerm: T}
+	select {
+	case tc.consumer <- raft.RPC{Command: req, RespChan: ch}:
+	case <-time.After(200 * time.Millisecond):
+		note("vote request not taken")
+		return c
+	}
+	select {
+	case <-ch:
+	case <-time.After(300 * time.Millisecond):
+	}
+	A.stop()
+	if c.nodes[C].r.CurrentTerm() != T+1 || c.nodes[B].r.CurrentTerm() != T {
+		note("set-up missed: terms B %d C %d, wanted %d and %d", c.nodes[B].r.CurrentTerm(), c.nodes[C].r.CurrentTerm(), T, T+1)
+		c.heal()
+		c.nodes[A.id].start()
+		c.settle(500 * time.Millisecond)
+		return c
+	}
+	c.heal()
+	c.h.add(hev{kind: "note", s: "quiet"})
+	t0 := time.Now()
+	bound := 20*o.timeouts + 500*time.Millisecond
+	ok := waitFor(bound, func() bool {
+		l := c.leader()
+		if l == nil {
+			return false
+		}
+		pay++
+		cc := c.call(l.id, "apply", pay, 0)
+		return cc.wait(100*time.Millisecond) && cc.err == nil
+	})
+	d := time.Since(t0)
+	c.h.add(hev{kind: "note", s: "convergence-us", a: uint64(d.Microseconds())})
+	if !ok {
+		noteFinding(c, "C12", "no-leader-with-a-voter-one-term-ahead", "two of three voters can communicate (server %d in term %d with the complete log, server %d in term %d with a shorter one) and no leader accepted a write within %v (bound %v): terms now %d and %d",
+			B, T, C, T+1, d, bound, c.nodes[B].r.CurrentTerm(), c.nodes[C].r.CurrentTerm())
+	}
+	c.nodes[A.id].start()
+	c.settle(500 * time.Millisecond)
+	return c
+}
+
+func init() { scenarioFamilies[15] = scOneTermAhead }
